@@ -55,6 +55,21 @@ CHECKS = {
              "temp-index path (git apply) and the work-tree merge all return the cell-wise three-way merge; "
              "non-overlapping changes merge cleanly and commute; already-present changes become empty; the temp-index "
              "cache stays coherent (fix F7); pop+push reuses the same commits."),
+    "C08": dict(category="proof", design_ref="DESIGN.md section 4/C08",
+        text="Theorems on the stack / command model, where a commit carries the author name, e-mail, date and message "
+             "as one opaque identity plus the message text: commit objects are immutable under every command; after "
+             "push, pop, goto, float, sink, delete, hide, unhide, rename, commit, uncommit, clean, spill and refresh every "
+             "patch carries the identity of a patch before (its own, or under rename that of the renamed patch) or, under "
+             "uncommit, is an existing commit taken as it is; rename keeps the very commit; undo / redo / reset re-create "
+             "nothing; new gives the requested identity and leaves the others; a refresh that changes nothing creates no "
+             "commit. End-to-end direct oracle on commits with legacy encodings (ISO-8859-1, windows-1252, valid-UTF-8 "
+             "bytes under a declared single-byte encoding), odd identities, time zones and git notes through every "
+             "re-creating operation (fixes F15, F28).",
+        note="Partial: byte-level decoding / re-encoding (encoding header, encoding_rs tables, git's i18n.commitEncoding) "
+             "and gpg signing are outside the model and judged by the end-to-end oracle only; edit's interactive path is "
+             "covered by the scripted extras scenarios. Trusted: Coq kernel; history-level correspondence harness.",
+        technique="Coq proof (identity carried by every re-creating operation) + history-level differential testing + "
+                  "end-to-end decoded author/date/message/notes oracle"),
     "C09": dict(category="proof", design_ref="DESIGN.md section 4/C09", note=HIST_NOTE, technique=HIST_TECH,
         text="Theorems: a conflict halt keeps every earlier push; halted transactions never exit 0; with conflicts "
              "disallowed nothing is touched; guarded commands and undo without --hard refuse while the index is "
@@ -126,6 +141,22 @@ CHECKS = {
              "clone/delete (git checkout) is judged by the direct oracle only.",
         technique="Coq proof + regenerated command-table obligations + extracted-model differential testing of "
                   "stg branch sub-commands + whole-repository before/after oracles"),
+    "C18": dict(category="proof", design_ref="DESIGN.md section 4/C18",
+        text="Theorems about the byte-level model of the text side of export/import (Model/Export.v: description "
+             "split and template specialisation; split_patch, Headers::parse_message, parse_name_email, message "
+             "assembly): splitting is a partition at the first separator line; the default template renders to a "
+             "fixed text; for every description whose first line is a usable subject and whose body has no "
+             "separator-like line and no header-like or indented first line, import reads back the same subject, "
+             "author name, author e-mail and body (equal up to trailing blank lines) and hands the untouched rest to "
+             "git apply; non-vacuity example; the three shapes where the full statement is false of the faithful model "
+             "are proved refuted with witnesses and replayed on the implementation (known findings F13, F14, F35).",
+        note="Partial: git diff-tree --binary / git apply (the diff itself, tree equality), gzip/bzip2/tar decoding and "
+             "the mbox form (git mailsplit/mailinfo) are outside the model and judged by the end-to-end direct oracle "
+             "only. Trusted: Coq kernel; hook 3 (stg verif-eval splitpatch/parsemsg/nameemail/specialize); extraction "
+             "of Model/Export.v (ExtrOcamlBasic) and ocaml/edriver.ml.",
+        technique="Coq proof (round-trip theorem + refuted witnesses) + extracted-model function-level differential "
+                  "testing + byte-for-byte comparison of real exported files and imported patches with the model + "
+                  "export/import round-trip oracle over series, file, gzip, tar.gz and mbox forms"),
     "C19": dict(category="proof", design_ref="DESIGN.md section 4/C19", note=PROTO_NOTE, technique=PROTO_TECH,
         text="Theorems: one SIGINT before publication leaves the refs unchanged; inside the critical section the "
              "publication completes (refs, index, work tree of the completed command) with status 130; a roll-back "
